@@ -89,6 +89,16 @@ def routes(xtuml, m0, with_files=True, tag=''):
         for perm in ((0, 1, 2), (2, 1, 0), (1, 0, 2)):
             files = [[ps, pi, pu][i] for i in perm]
             yield 'persist_schema+instances+identifiers:%s' % (perm,), xtuml.load_metamodel(files)
+        # one file written in three steps with mode='a'
+        pa = base + '.append.sql'
+        xtuml.persist_schema(m0, pa)
+        xtuml.persist_instances(m0, pa, mode='a')
+        xtuml.persist_unique_identifiers(m0, pa, mode='a')
+        yield 'persist_*:append-mode', xtuml.load_metamodel(pa)
+        try:
+            os.unlink(pa)
+        except OSError:
+            pass
         for f in (p, ps, pi, pu):
             try:
                 os.unlink(f)
